@@ -722,11 +722,17 @@ def rule_linear_structure(rep: Report, repo: Repo):
         if not (isinstance(l, ast.For) and isinstance(l.target, ast.Tuple) and len(l.target.elts) == 2):
             continue
         k_, c_ = (norm(x) for x in l.target.elts)
-        if not (len(l.body) == 1 and isinstance(l.body[0], ast.AugAssign) and isinstance(l.body[0].op, ast.Add)
-                and isinstance(l.body[0].target, ast.Subscript) and norm(l.body[0].target.slice) == k_ and norm(l.body[0].value) == c_):
+        st0 = l.body[0] if len(l.body) == 1 else None
+        aug = isinstance(st0, ast.AugAssign) and isinstance(st0.op, ast.Add) and isinstance(st0.target, ast.Subscript) \
+            and norm(st0.target.slice) == k_ and norm(st0.value) == c_
+        # D[K] = D[K] + C is the same accumulation
+        plain = isinstance(st0, ast.Assign) and isinstance(st0.targets[0], ast.Subscript) and norm(st0.targets[0].slice) == k_ \
+            and isinstance(st0.value, ast.BinOp) and isinstance(st0.value.op, ast.Add) \
+            and sorted([norm(st0.value.left), norm(st0.value.right)]) == sorted([norm(st0.targets[0]), c_])
+        if not (aug or plain):
             bad_body = True
             continue
-        dicts.add(norm(l.body[0].target.value))
+        dicts.add(norm((st0.target if aug else st0.targets[0]).value))
         its = [l.iter]
         if isinstance(l.iter, ast.Call) and call_name(l.iter) in ("chain", "itertools.chain") and not l.iter.keywords:
             its = list(l.iter.args)  # one sweep over the concatenation of the operands' terms
@@ -760,18 +766,40 @@ def rule_linear_structure(rep: Report, repo: Repo):
     if rname is None:
         raise AnalysisError(RULE, "__mul__: returned accumulator not found")
     rep.check(len(comb) == 1 and len(acc) == 1, RULE, f"{CLS}.__mul__ distributes over the right operand's terms on a common operator list", "", loc(m))
-    # fermion / spin coefficient rules of _multiply_op
+    # fermion / spin coefficient rules of _multiply_op, per (annihilation | creation) x (slot occupied | empty), on resolved paths
+    from .sem import canon as _canon10, outcomes as _outcomes10
     f = repo.find(f"{CLS}::_multiply_op", RULE)
-    sel = [n for n in own_nodes(f) if isinstance(n, ast.If) and norm(n.test) in ("op_power is One", "op_power == One", "op_power == 1")
-           and any("xreplace" in norm(s) for s in n.body)]
-    ok = False
-    if len(sel) == 1:
-        a = [norm(s) for s in sel[0].body if not isinstance(s, ast.If)]
-        b = [norm(s) for s in sel[0].orelse if not isinstance(s, ast.If)]
-        a2 = [norm(s.body[0]) for s in sel[0].body if isinstance(s, ast.If) and norm(s.test) == "orig_power"]
-        b2 = [norm(s.body[0]) for s in sel[0].orelse if isinstance(s, ast.If) and norm(s.test) == "orig_power"]
-        ok = a == ["coeff = coeff.xreplace({n_operator: Zero})"] and b == ["coeff = coeff.xreplace({n_operator: One})"] \
-            and a2 == ["coeff = n_operator * coeff"] and b2 == ["coeff = (One - n_operator) * coeff"]
-    rep.check(ok, RULE, f"{CLS}._multiply_op fermion/spin rules: f(n) c = f(0) c, c† c = n;  f(n) c† = f(1) c†, c c† = 1 - n", "", loc(f))
+    sel = [n for n in own_nodes(f) if isinstance(n, ast.If) and any(isinstance(x, ast.Attribute) and x.attr == "xreplace" for x in ast.walk(n))
+           and norm(_canon10(n.test)) in ("op_power is One", "op_power == One", "op_power == 1", "op_power is not One", "op_power != One", "op_power != 1",
+                                        "op_power is -One", "op_power == -One", "op_power == -1")]
+    if len(sel) != 1:
+        raise AnalysisError(RULE, "_multiply_op: fermion / spin coefficient rules (branch on op_power) not found")
+    table = {}
+    for ann in (True, False):
+        for occupied in (True, False):
+            def atom(n, ann=ann, occupied=occupied):
+                t = norm(_canon10(n))
+                if t in ("op_power is One", "op_power == One", "op_power == 1"):
+                    return ann
+                if t in ("op_power is not One", "op_power != One", "op_power != 1", "op_power is -One", "op_power == -One", "op_power == -1"):
+                    return not ann
+                if t in ("orig_power", "orig_power != 0", "orig_power != Zero"):
+                    return occupied
+                if t in ("orig_power == 0", "orig_power == Zero", "not orig_power"):
+                    return not occupied
+                return None
+            outs = _outcomes10([sel[0]], None, env={}, atom=atom, expand=False, opaque=("coeff",))
+            if len(outs) != 1:
+                raise AnalysisError(RULE, "_multiply_op: fermion / spin coefficient rules depend on a condition that is not understood")
+            steps = [norm(rv) for kind, st, rv in outs[0].seq if kind == "assign" and isinstance(st, ast.Assign) and norm(st.targets[0]) == "coeff"]
+            table[(ann, occupied)] = steps
+    N = "n_operator"
+    want = {(True, False): [[f"coeff.xreplace({{{N}: Zero}})"]],
+            (True, True): [[f"coeff.xreplace({{{N}: Zero}})", f"{N} * coeff"]],
+            (False, False): [[f"coeff.xreplace({{{N}: One}})"]],
+            (False, True): [[f"coeff.xreplace({{{N}: One}})", f"(One - {N}) * coeff"], [f"coeff.xreplace({{{N}: One}})", f"(1 - {N}) * coeff"]]}
+    ok = all(table[k] in want[k] for k in want)
+    rep.check(ok, RULE, f"{CLS}._multiply_op fermion/spin rules: f(n) c = f(0) c, c† c = n;  f(n) c† = f(1) c†, c c† = 1 - n",
+              f"(annihilation, slot occupied) -> coefficient updates: {table}", loc(f))
     nil = [n for n in own_nodes(f) if isinstance(n, ast.If) and norm(n.test) in ("abs(new_power) > One", "abs(new_power) > 1")]
     rep.check(len(nil) == 1 and isinstance(nil[0].body[0], ast.Continue), RULE, f"{CLS}._multiply_op drops nilpotent fermion/spin powers", "", loc(f))
